@@ -15,6 +15,14 @@ Definition lf_c (a : arith) (r v1 v2 : Z) : bool :=
 Definition lf_v (a : arith) (w r v1 v2 : Z) : bool :=
   match a with AAdd => negb (S w r =? S w v1 + S w v2) | ASub => negb (S w r =? S w v1 - S w v2) end.
 
+(* the signed reading without a case split (keeps lia's search small) *)
+Lemma S64 a : 0 <= a < 2 ^ 64 -> S 64 a = a - 18446744073709551616 * (a / 9223372036854775808).
+Proof. intros H. unfold S. change (2 ^ (64 - 1)) with 9223372036854775808. change (2 ^ 64) with 18446744073709551616 in *.
+  destruct (Z.ltb_spec a 9223372036854775808); lia. Qed.
+Lemma S32 a : 0 <= a < 2 ^ 32 -> S 32 a = a - 4294967296 * (a / 2147483648).
+Proof. intros H. unfold S. change (2 ^ (32 - 1)) with 2147483648. change (2 ^ 32) with 4294967296 in *.
+  destruct (Z.ltb_spec a 2147483648); lia. Qed.
+
 (* bit-vector lemmas, one per flag, at the two concrete widths *)
 Lemma S_zero32 : S 32 0 = 0. Proof. reflexivity. Qed.
 Lemma S_zero64 : S 64 0 = 0. Proof. reflexivity. Qed.
@@ -52,13 +60,15 @@ Lemma flag_v_bv a w r v1 v2 : (w = 64 \/ w = 32) -> 0 <= v1 < 2 ^ w -> 0 <= v2 <
            (match a with AAdd => s_add 72 (s_sext 72 w v1) (s_sext 72 w v2) | ASub => s_sub 72 (s_sext 72 w v1) (s_sext 72 w v2) end)
   = b2z (lf_v a w r v1 v2).
 Proof.
-  intros Hw H1 H2 ->. unfold s_cmpneq, lf_v, arith_val, s_add, s_sub, s_sext, U, S.
-  destruct a, Hw as [-> | ->];
-    change (2 ^ 72) with 4722366482869645213696; change (2 ^ 64) with 18446744073709551616 in *;
-    change (2 ^ 32) with 4294967296 in *;
-    change (2 ^ (64 - 1)) with 9223372036854775808; change (2 ^ (32 - 1)) with 2147483648;
-    repeat match goal with |- context [?x <? ?y] => destruct (Z.ltb_spec x y) end;
-    repeat match goal with |- context [?x =? ?y] => destruct (Z.eqb_spec x y) end; cbn [b2z negb]; lia.
+  intros Hw H1 H2 Hr.
+  assert (R : 0 <= r < 2 ^ w) by (subst r; unfold arith_val, s_add, s_sub, U; destruct a; apply Z.mod_pos_bound; destruct Hw as [-> | ->]; lia).
+  unfold s_cmpneq, lf_v, s_add, s_sub, s_sext, U.
+  destruct Hw as [-> | ->]; [rewrite !S64 by assumption|rewrite !S32 by assumption];
+    unfold arith_val, s_add, s_sub, U in Hr;
+    change (2 ^ 72) with 4722366482869645213696; change (2 ^ 64) with 18446744073709551616 in *; change (2 ^ 32) with 4294967296 in *;
+    destruct a;
+    match goal with |- context [negb (?x =? ?y)] => destruct (Z.eqb_spec x y) end;
+    match goal with |- context [?x =? ?y] => destruct (Z.eqb_spec x y) end; cbn [b2z negb]; lia.
 Qed.
 
 (* the specification's flags (AddWithCarry) in terms of the same quantities: identical for ADDS;
@@ -69,11 +79,14 @@ Lemma addsub_flags N (sub : bool) x y : (N = 64 \/ N = 32) -> 0 <= x < 2 ^ N -> 
   snd (addsub N sub x y) = (lf_n N r, lf_z r, (if sub then negb (lf_c a r x y) else lf_c a r x y), lf_v a N r x y).
 Proof.
   intros HN Hx Hy. cbv zeta.
-  unfold addsub, AddWithCarry, NOT, lf_n, lf_z, lf_c, lf_v, arith_val, s_add, s_sub, U, S.
+  unfold addsub, AddWithCarry, NOT, lf_n, lf_z, lf_c, lf_v, arith_val, s_add, s_sub, U.
   destruct sub, HN as [-> | ->]; cbn [snd];
+    [rewrite !S64 by (change (2 ^ 64) with 18446744073709551616 in *; lia)
+    |rewrite !S32 by (change (2 ^ 32) with 4294967296 in *; lia)
+    |rewrite !S64 by (change (2 ^ 64) with 18446744073709551616 in *; lia)
+    |rewrite !S32 by (change (2 ^ 32) with 4294967296 in *; lia)];
     change (2 ^ 64) with 18446744073709551616 in *; change (2 ^ 32) with 4294967296 in *;
     change (2 ^ (64 - 1)) with 9223372036854775808; change (2 ^ (32 - 1)) with 2147483648;
-    repeat match goal with |- context [?p <? ?q] => destruct (Z.ltb_spec p q) end;
     (apply (f_equal2 pair); [apply (f_equal2 pair); [apply (f_equal2 pair)|]|]); lia.
 Qed.
 
